@@ -396,7 +396,62 @@ Variable std : string -> bool.             (* fickle.is_std_module *)
 Variable pi : list (nat * expr) -> list (nat * expr).
    (* iteration order of the set `defined - used`: any permutation (PYTHONHASHSEED) *)
 
-Definition inst_interpret (l : list xop) : res fk := run (map x_op l).
+(* ---- self-containing containers ----
+   The VM can build a list / dict / set that (directly or through others) contains itself; Python's
+   ast.unparse and NodeVisitor then raise RecursionError, and the depth-cut printers of this model
+   would unfold the cycle 40 levels deep.  Such results are declined ([EUnmodelled]): the harness
+   checks those histories model-free only. *)
+Fixpoint expr_refs (fuel : nat) (e : expr) : list nat :=
+  match fuel with
+  | O => []
+  | S n =>
+      let go := expr_refs n in
+      match e with
+      | ENode i => [i]
+      | ETuple l | ESetLit l => flat_map go l
+      | ECall f args kw =>
+          (go f ++ flat_map go args ++ match kw with Some k => go k | None => [] end)%list
+      | EStarred x | EAttr x _ => go x
+      | EDictLit kvs => (flat_map go (map fst kvs) ++ flat_map go (map snd kvs))%list
+      | _ => []
+      end
+  end.
+
+Definition node_refs (n : node) : list nat :=
+  match n with
+  | NList l | NSet l => flat_map (expr_refs UDEPTH) l
+  | NDict kvs => (flat_map (expr_refs UDEPTH) (map fst kvs) ++ flat_map (expr_refs UDEPTH) (map snd kvs))%list
+  end.
+
+Fixpoint nat_union (a b : list nat) : list nat :=
+  match a with
+  | [] => b
+  | x :: r => if nat_mem x b then nat_union r b else x :: nat_union r b
+  end.
+
+(* one step of the transitive closure of the "contains" relation between nodes *)
+Definition close_step (adj cur : list (list nat)) : list (list nat) :=
+  map (fun reach => fold_left (fun acc j => nat_union (nth j adj []) acc) reach reach) cur.
+
+Fixpoint close_n (k : nat) (adj cur : list (list nat)) : list (list nat) :=
+  match k with O => cur | S k' => close_n k' adj (close_step adj cur) end.
+
+Fixpoint self_in (i : nat) (reach : list (list nat)) : bool :=
+  match reach with
+  | [] => false
+  | r :: rest => nat_mem i r || self_in (S i) rest
+  end.
+
+Definition cyclic (s : fk) : bool :=
+  let adj := map node_refs (nodes s) in
+  if forallb (fun r => match r with [] => true | _ => false end) adj then false
+  else self_in 0 (close_n (List.length adj) adj adj).
+
+Definition inst_interpret (l : list xop) : res fk :=
+  match run (map x_op l) with
+  | Ok s => if cyclic s then Err EUnmodelled else Ok s
+  | Err e => Err e
+  end.
 Definition inst_props (a : fk) : res fk := Ok a.
    (* the ASTProperties object holds the import / call NODES of the AST it visited: it is
       modelled by that AST; its lists are the functions below *)
@@ -458,7 +513,8 @@ Definition inst_fresh_view (v : vf) (l : list xop) : ans :=
   match v with
   | VTrace =>
       match traced_from (map x_op l) (fk_init 0) with
-      | Ok (executed, s) => ATrace executed (unparse_module crepr "result" s)
+      | Ok (executed, s) => if cyclic s then AErr EUnmodelled
+                            else ATrace executed (unparse_module crepr "result" s)
       | Err e => AErr e
       end
   | VInterp =>
